@@ -28,14 +28,15 @@ META = {
 }
 
 RULE = ("(1) exhaustive: every layout of the box x every origin x 3 routings, one async_bcast between barriers; case = (N, p, routing, origin); "
-        "non-trivial = more than one node. (2) generated: programs of 2 rounds with 3-7 root operations each (bcast 40% / mcast 25% / async 35%, "
+        "non-trivial = more than one node. (2) generated: programs of 2 rounds with 3-9 root operations each (bcast 40% / mcast 25% / async 35%, "
         "random issuers, mcast lists of 0-5 entries with duplicates), each root with probability 0.55 spawning a child operation from inside its "
         "handler (depth <= 2), over layouts {1x4,2x2,2x3,3x2,2x4,5x2,3x3,4x2} x routing x buffer {0, default} x policy "
-        "{uniform,racer,starve,late,burst} x sim seeds (quick: 3 policies per configuration in rotation; thorough: all 5, 4 repetitions)")
+        "{uniform,racer,starve,late,burst} x a fresh sim seed per program (quick: 1 repetition = 240 programs; thorough: 12 repetitions, 5 more layouts up to 16 ranks, up to 15 roots per round)")
 
 SCHEMES = ["NONE", "NR", "NLNR"]
 POLICIES = ["uniform", "racer", "starve", "late", "burst"]
 CONC_LAYOUTS = [(1, 4), (2, 2), (2, 3), (3, 2), (2, 4), (5, 2), (3, 3), (4, 2)]
+CONC_LAYOUTS_THOROUGH = CONC_LAYOUTS + [(3, 4), (4, 3), (7, 2), (2, 6), (4, 4)]
 # the unrepaired tree can abort inside barrier() when handlers send with a tiny buffer (C03's defect D1:
 # `received_to_return != local_process_incoming()`); such a run says nothing about C05 and is counted, not judged
 C03_ABORT = ("m_send_buffer_bytes == 0", "m_pending_isend_bytes == 0")
@@ -104,10 +105,20 @@ def parse_bcast_log(log):
     return segs, last_contrib
 
 
+def single_variant(N, p, sch):
+    """buffer size and scheduler policy of a single-broadcast job, rotated over the jobs (the legs must not depend on either)"""
+    k = 2 * N + p + SCHEMES.index(sch)
+    return (0 if k % 2 else None), POLICIES[k % 5]
+
+
 def run_bcast(binary, N, p, sch, lo, hi, sim_seed=1):
     n = N * p
-    return C.run_sim(binary, ["bcast", lo, hi], nodes=N, ppn=p, env={"YGM_COMM_ROUTING": sch}, sim_seed=sim_seed,
-                     log_bytes=12, timeout=600, max_steps=5000 + (hi - lo) * n * (60 * n + 600))
+    buf, pol = single_variant(N, p, sch)
+    env = {"YGM_COMM_ROUTING": sch}
+    if buf is not None:
+        env["YGM_COMM_BUFFER_SIZE_KB"] = buf
+    return C.run_sim(binary, ["bcast", lo, hi], nodes=N, ppn=p, env=env, sim_seed=sim_seed, policy=pol,
+                     log_bytes=12, timeout=600, max_steps=5000 + (hi - lo) * n * (80 * n + 800))
 
 
 def check_bcast_job(res, N, p, sch, lo, hi, sr, MB, model_ok):
@@ -180,7 +191,7 @@ def check_bcast_job(res, N, p, sch, lo, hi, sr, MB, model_ok):
 
 # ------------------------------------------------------------------ concurrency
 
-def gen_script(rng, n):
+def gen_script(rng, n, max_roots=9):
     """returns list of op dicts: {root, kind, issuer, child, dest, dests} or {kind:'B'}"""
     ops = []
 
@@ -207,7 +218,7 @@ def gen_script(rng, n):
         return idx
 
     for rnd in range(2):
-        for _ in range(rng.randrange(3, 8)):
+        for _ in range(rng.randrange(3, max_roots + 1)):
             mk("R", rng.randrange(n), 0)
         if rnd == 0:
             ops.append({"kind": "B"})
@@ -274,7 +285,7 @@ def run_conc(binary, cfg):
     if cfg["buffer_kb"] is not None:
         env["YGM_COMM_BUFFER_SIZE_KB"] = cfg["buffer_kb"]
     return C.run_sim(binary, ["conc", cfg["script"]], nodes=cfg["N"], ppn=cfg["p"], env=env, sim_seed=cfg["sim_seed"],
-                     policy=cfg["policy"], log_bytes=0, timeout=300, max_steps=4000000)
+                     policy=cfg["policy"], log_bytes=0, timeout=120, max_steps=300000)
 
 
 def parse_conc(sr, n):
@@ -359,16 +370,13 @@ def check_conc(res, cfg, sr, ops, MB, MM, model_ok):
 def conc_configs(tier, seed):
     rng = random.Random(f"c05-{seed}")
     cfgs = []
-    reps = 1 if tier == "quick" else 4
-    i = 0
+    reps = 1 if tier == "quick" else 12
     for rep in range(reps):
-        for (N, p) in CONC_LAYOUTS:
+        for (N, p) in (CONC_LAYOUTS if tier == "quick" else CONC_LAYOUTS_THOROUGH):
             for routing in SCHEMES:
                 for buf in (0, None):
-                    pols = [POLICIES[(i + k) % 5] for k in range(3 if tier == "quick" else 5)]
-                    i += 1
-                    for pol in pols:
-                        ops = gen_script(rng, N * p)
+                    for pol in POLICIES:
+                        ops = gen_script(rng, N * p, 9 if tier == "quick" else 15)
                         cfgs.append(({"N": N, "p": p, "routing": routing, "buffer_kb": buf, "policy": pol,
                                       "sim_seed": rng.randrange(1, 1 << 30), "script": script_text(ops)}, ops))
     return cfgs
